@@ -635,6 +635,9 @@ def fit_predict_degenerate_bounded_instance(pinned=False):
         rng = np.random.RandomState(inp['seed'])
         model, data, K, it = inp['model'], inp['data'], inp['K'], inp['it']
         F, D = 2, 3
+        if model in ('cacgmm', 'gcacgmm', 'vmfcacgmm') and not pinned:
+            # microphone arrays of any size: with more channels than frames most of the spectrum sits on the eigenvalue floor
+            D = [3, 3, 8, 34][(inp['seed'] // 5) % 4]
         N = 2 if data == 'few-frames' else 10
         cplx = model not in ('gmm', 'vmfmm')
         y = rng.normal(size=(F, N, D)) + (1j * rng.normal(size=(F, N, D)) if cplx else 0)
